@@ -300,6 +300,15 @@ def h_every_linter(ctx):
     elif f == "file":
         lines.insert(0, _directive("file", style, "thailint", name))
         shift_at, shift = 1, 1
+    # a page break (form feed) inside a comment above everything: compilers do not count it as a line break, nor may a lookup
+    page_break = ctx.flag("form_feed_in_a_comment_on_line_1") if form in ("same-line", "next-line", "block") else False
+    if page_break:
+        if "thailint" in lines[0] or not lines[0].strip() or lines[0].lstrip().startswith(("#!", '"""', "/*")):
+            ctx.assume(False)
+        lines[0] += "  " + style + " page\x0cbreak"
+        text0 = text.split("\n")
+        text0[0] += "  " + style + " page\x0cbreak"
+        base = _lint_text(tname, "\n".join(text0), companions)
     after = _lint_text(tname, "\n".join(lines), companions)
     directive_texts = [_directive(k, style, "thailint", name) for k in ("same-line", "next-line", "block-start", "block-end", "file", "same-line-space", "file-space")]
 
